@@ -127,6 +127,12 @@ def lex_diff_tier(work, rep, hbin, prop, n):
     d = work.path("difflex")
     os.makedirs(d, exist_ok=True)
     p = vlib.run_harness(hbin, ["difflex", "-corpus", os.path.join(vlib.REPO, "testdata"), "-n", str(n), "-outdir", d], timeout=6000)
+    if p.returncode == 4:
+        # a call on the current tree (or on the frozen copy) did not return: C07's, whatever property asked
+        hang = [l for l in p.stderr.decode("utf-8", "replace").split("\n") if l.startswith("@@HANG ")]
+        if prop == "C07":
+            return [{"kind": "panic", "text": hang[0][7:] if hang else "", "what": "a scanner call did not return within 60 s"}]
+        raise vlib.Infra("difflex: a call did not return (reported by C07): " + (hang[0] if hang else ""))
     if p.returncode != 0:
         raise vlib.Infra("difflex failed: " + p.stderr.decode()[-2000:])
     s = summary_of(p.stderr)
